@@ -229,6 +229,7 @@ def run_internal(cfg, devs, speed=(1, 1), initial=0, stim=(), t_end=3_000_000_00
         loop = asyncio.get_event_loop()
         TICKLOG.append((getattr(self.update_component, "__self__", None), int(time),
                         sorted(cid(x) for x in update_components), loop.time_ns()))
+        info.setdefault("tickers", {})[id(self)] = self
         return await orig_call(self, time, update_components)
 
     tk.Ticker.__call__ = logged_call
@@ -290,6 +291,8 @@ def run_internal(cfg, devs, speed=(1, 1), initial=0, stim=(), t_end=3_000_000_00
             await REG[who].raise_interrupt()
         await asyncio.sleep(t_end / 1e9 - loop.vt)
         info["steps"] = loop.steps
+        # ticks that never completed: a ticker still waiting for answers although nothing is left to run at this instant
+        info["unfinished"] = sorted(sorted(cid(x) for x in t.to_update) for t in info.get("tickers", {}).values() if t.to_update)
         errs = []
         for t in tasks:
             if t.done() and not t.cancelled() and t.exception() is not None:
@@ -330,7 +333,8 @@ def run_internal(cfg, devs, speed=(1, 1), initial=0, stim=(), t_end=3_000_000_00
     return dict(per=per, trace=[(c, t, dict(i)) for (c, t, i) in TRACE], trace_rt=list(TRACE_RT), ticklog=ticklog,
                 mticks=mticks, inj=info.get("inj"), steps=info.get("steps"),
                 early_before_scheduler=info.get("early_before_scheduler"),
-                error=err, errors=info.get("errors", []), tasks_done=info.get("tasks_done"), bus=info.get("bus"))
+                error=err, errors=info.get("errors", []), tasks_done=info.get("tasks_done"), bus=info.get("bus"),
+                unfinished=info.get("unfinished", []))
 
 
 # ------------------------------------------------------------------ generators
